@@ -181,6 +181,12 @@ def run_c18(ctx):
         c["rename"] = gen_core.rename_map(rng, params)
         c["ground"] = False
         cases.append(c)
+    # several (in)equalities between the parameters under permutations / chains of their names
+    for i in range(100 if quick else 2000):
+        c = gen_core.gen_eq_case(ctx.seed, 95000 + i)
+        c["rename"] = gen_core.rename_map(rng, _params_of(c["tree"]), kinds=("perm", "perm", "chain"))
+        c["ground"] = False
+        cases.append(c)
     tf = ctx.drive("core", cases, hashseeds=hashseeds, opts={"snaps": False})
     ctx.validate(tf, {c["id"]: c for c in cases}, driver="core", opts={"snaps": False})
     kinds = {}
